@@ -526,7 +526,10 @@ mips_rule_loadp (OrcCompiler *compiler, void *user, OrcInstruction *insn)
 
   if (src->vartype == ORC_VAR_TYPE_CONST) {
     if (size == 1 || size == 2) {
-      orc_mips_emit_ori (compiler, dest->alloc, ORC_MIPS_ZERO, src->value.i);
+      /* ori takes an unsigned 16-bit immediate: only the bytes of the element
+       * count (a 1-byte constant given as -1 is 0xff) */
+      orc_mips_emit_ori (compiler, dest->alloc, ORC_MIPS_ZERO,
+          src->value.i & (size == 1 ? 0xff : 0xffff));
       if (size == 1)
         orc_mips_emit_replv_qb (compiler, dest->alloc, dest->alloc);
       else if (size == 2)
